@@ -259,12 +259,14 @@ def oraclePol (evs : List Event) : Policy := fun h q =>
 def isPermB (a b : List Name) : Bool :=
   a.length == b.length && a.all (· ∈ b) && b.all (· ∈ a)
 
+/-- the order in which this round's requests were observed; a round that aborted early shows only a
+    prefix of it, the unobserved rest is appended in the model's own order -/
 def oracleSched (evs : List Event) : Sched := fun h l =>
   let cand := ((evs.drop h.length).take l.length).filterMap fun e =>
     match e.1 with
     | .filename n => some n
     | _ => none
-  if isPermB cand l then cand else l
+  if nodupB cand && cand.all (· ∈ l) then cand ++ l.filter (· ∉ cand) else l
 
 def endpointOf (p : PollOut) (v : Version) : Endpoint :=
   match p.streams.find? (fun s => s.v == v) with
